@@ -7,10 +7,10 @@ import vlib
 
 MANIFEST = dict(
     text=("Coq theorems (offset range/bijection/injectivity, sub-tensor/vector/matrix views, slices, reshape with one "
-          "inferred dimension, gather) about an executable model whose arithmetic steps are regenerated from "
+          "inferred dimension, gather, summed-area table = naive prefix sums) about an executable model whose arithmetic steps are regenerated from "
           "dims.h/tensor.h on every run by tools/translate.py; the extracted model is compared with the real tensor "
-          "classes (ASan+UBSan) on an exhaustive enumeration of small shapes and random large ones. Summed-area table "
-          "and storage conversions are searched, not proved."),
+          "classes (ASan+UBSan) on an exhaustive enumeration of small shapes and random large ones. Storage "
+          "conversions are searched, not proved."),
     note=("Coq kernel; translator (13 kernels); extraction (ExtrOcamlBasic); harness + OCaml driver; NDEBUG build: only "
           "valid accesses explored; Eigen Map/vector storage modelled as a flat list."),
     technique="Coq proof over a translated+extracted model, exhaustive differential correspondence",
@@ -84,9 +84,7 @@ def run(tier, replay=None):
     cov["impl_direct_failures"] = len(impl_fail)
     cov["samples"] = [l for l in lines if l.startswith(("OFF 3,4,2", "SLICE 3,2", "RESHAPE 4,3 |", "GATHER 3,2", "INTEGRAL 2,3"))][:8] or lines[:5]
     cov["exhaustive"] = True
-    cov["unproved_clauses_searched"] = ["summed-area table = naive prefix sums (model vs implementation vs naive definition, "
-                                        "exact, on every enumerated shape; no theorem yet)",
-                                        "owning/mapping/constant storage conversions keep contents (implementation-side check only)"]
+    cov["unproved_clauses_searched"] = ["owning/mapping/constant storage conversions keep contents (implementation-side check only)"]
     cov["excluded_inputs"] = ["reshape with a -1 whose remaining product is 0 (integer division by zero in treshape; outside the guard of C16_reshape_infer)"]
     r.assumptions = ["assertions are compiled out (NDEBUG) as in the library build; only valid accesses are explored",
                      "ASan/UBSan detect out-of-bounds touches of the explored accesses"]
